@@ -16,6 +16,7 @@ import (
 	"sync"
 	"time"
 
+	"github.com/prometheus/prometheus/model/labels"
 	"github.com/prometheus/prometheus/model/value"
 	"github.com/prometheus/prometheus/promql/parser"
 )
@@ -283,6 +284,105 @@ func (r *c18Runner) layoutKind(expr string, pe, blamed parser.Expr, mode string,
 		return "layout_changes_answer:range:" + f
 	}
 	return "layout_changes_answer:instant:" + f
+}
+
+// explainLayout recognises the layout-dependent defects whose mechanism is understood (each by a test on the answers, or
+// - where the answer is an error - by its trigger) and returns a kind that is specific to that one defect.
+func (r *c18Runner) explainLayout(blamed, pe parser.Expr, mode string, bt int64, rq c18Range, cls, diff string) string {
+	if r.layout == c18LayDefault {
+		return ""
+	}
+	ranged := mode != "instant"
+	ans := func(srv *c18Server, db, e string) *c18Answer { // answer at bt in the mode of the mismatch
+		if ranged {
+			a := srv.rng(db, e, rq)
+			if a.Err != "" {
+				return a
+			}
+			return a.at(bt)
+		}
+		return srv.instant(db, e, bt)
+	}
+	up := func(e string) *c18Answer {
+		if ranged {
+			return r.ref.rng(e, rq).at(bt)
+		}
+		return r.ref.instant(e, bt)
+	}
+	// (5) a cursor that serves several series one after the other (instant-vector selector) reads, for every series but its
+	// first, neither the out-of-order file / out-of-order memtable rows nor - if the first series had no file in the time
+	// range - any file: the selector over several series is wrong, every series selected alone is right
+	if vs, ok := blamed.(*parser.VectorSelector); ok && bt != 0 && (r.layout == c18LayLate || r.layout == c18LayLateMem) {
+		wrong := func() bool {
+			g := ans(r.srv, r.db, vs.String())
+			c, _ := c18Diff(up(vs.String()), g)
+			return c != "" && g.Err == ""
+		}
+		if !wrong() && mode == "range_vs_instants" {
+			ranged = false // the range answer is right, the instant answer at bt is not
+		}
+		alone, n := wrong(), 0
+		for _, sr := range r.set.Series {
+			if sr.Labels["__name__"] != vs.Name {
+				continue
+			}
+			one := *vs
+			one.LabelMatchers = append([]*labels.Matcher{}, vs.LabelMatchers...)
+			for _, l := range []string{"job", "instance"} {
+				one.LabelMatchers = append(one.LabelMatchers, labels.MustNewMatcher(labels.MatchEqual, l, sr.Labels[l]))
+			}
+			w := up(one.String())
+			if w.empty() {
+				continue
+			}
+			n++
+			g := ans(r.srv, r.db, one.String())
+			if c, _ := c18Diff(w, g); c != "" || g.Err != "" {
+				alone = false
+			}
+		}
+		if alone && n >= 2 {
+			return "later_series_of_reused_cursor_miss_out_of_order_rows"
+		}
+	}
+	if call, ok := blamed.(*parser.Call); ok {
+		// (6) {avg,min,max,sum,count,last}_over_time, range query with step > range, the last storage record of a series holds
+		// only rows that lie in no window: the reducer pads from step 0 of the Unix epoch and the answer is the error below
+		// (recognised by its trigger: the answer carries no values to test)
+		switch call.Func.Name {
+		case "avg_over_time", "min_over_time", "max_over_time", "sum_over_time", "count_over_time", "last_over_time":
+			if ms, ok := call.Args[0].(*parser.MatrixSelector); ok && ranged && cls == "server_error" &&
+				strings.Contains(diff, "same labelset") && rq.Step > ms.Range.Milliseconds() {
+				return "incagg_step_gt_range_tail_record_outside_windows"
+			}
+		}
+		// (7) resets() answers 0 for evaluation steps between two storage records whose window holds no sample
+		if call.Func.Name == "resets" && bt != 0 {
+			w, g := up(blamed.String()), ans(r.srv, r.db, blamed.String())
+			if g.Err == "" {
+				extraZero, other := 0, 0
+				for k, gp := range g.Series {
+					wp := w.Series[k]
+					switch {
+					case len(wp) == 0 && len(gp) == 1 && gp[0].V == 0:
+						extraZero++
+					case len(wp) == len(gp) && (len(gp) == 0 || c18Close(wp[0].V, gp[0].V)):
+					default:
+						other++
+					}
+				}
+				for k, wp := range w.Series {
+					if len(wp) > 0 && len(g.Series[k]) == 0 {
+						other++
+					}
+				}
+				if extraZero > 0 && other == 0 {
+					return "resets_zero_for_empty_window_between_records"
+				}
+			}
+		}
+	}
+	return ""
 }
 
 func c18LayoutList(s string) []string {
